@@ -5,7 +5,13 @@ from props.c01 import _cfg
 TRUSTED = [
     "SHA-256 enters the DRBG model and spec as the executable FIPS 180-4 definition of Spec/Sha256.lean; its agreement with md_map_sh256 is "
     "checked by the md_map lines of this stream and by C14",
-    "modelled, not verified: bn_mod inside bn_rand_mod (C09), little-endian host byte order of the digit array in bn_rand",
+    "modelled, not verified: bn_mod inside bn_rand_mod (C09: the model takes the mathematical residue); little-endian host byte order of "
+    "the digit array in bn_rand / fp_rand / fb_rand (digitOf reads w/8 little-endian bytes per digit: checked per line, not derived from C)",
+    "class A here (Model/RandInt.lean proved in Props/C15 for every byte source, state and request, executed per line): bn_rand, "
+    "bn_rand_mod, fp_rand, fb_rand. The state after bn_rand / fp_rand / fb_rand is observed through the next 16 generator bytes",
+    "class C: ep_rand / eb_rand / ed_rand / pc *_rand (bn_rand_mod + fixed-base multiplication, not composed here); rand_init's entropy "
+    "source; fp_rand's loop is exercised for at most one subtraction (every configured prime has the top bit of RLC_FP_BITS set; the "
+    "theorem covers any number of iterations)",
 ]
 ASSUMPTIONS = [
     "fewer than 2^31 - 256 generate calls between reseeds (ctx->counter is an int; SP 800-90A allows 2^48)",
@@ -13,7 +19,9 @@ ASSUMPTIONS = [
 ]
 RULE = ("histories = one seed followed by 1..40 generate/reseed operations with request sizes from the boundary set "
         "{0,1,31,32,33,55,56,64,65,255,256,257,1000,4096,65535,65536,65537} and random sizes; non-trivial = distinct history with at "
-        "least one non-empty generate")
+        "least one non-empty generate; bn_rand_st: every bit length in {0,1,2,7,8,9,w-1,w,w+1,2w-1,2w,2w+1,255..257,cap*w-w..cap*w+w+1} "
+        "with both signs plus random lengths; fp_rand: 12 seeds for every prime identifier the build selects (base: 256-bit, p255: 255-bit "
+        "with the top-digit mask); fb_rand: 40 seeds under the configured binary field")
 
 SIZES = [0, 1, 31, 32, 33, 55, 56, 64, 65, 255, 256, 257, 1000, 4096]
 BIG = [65535, 65536, 65537, 70000]
